@@ -77,7 +77,7 @@ class ClientContract(Contract):
 
 
 class ConvertValue(ClientContract):
-    props = ("C11", "C03", "C13", "C18")      # C18: input models are dumped by alias - the GraphQL name stays the wire name
+    props = ("C11", "C03", "C13", "C18", "C06")      # C18: input models are dumped by alias - the GraphQL name stays the wire name
     method = "_convert_value"
 
     def setup(self, E):
@@ -103,7 +103,7 @@ class ConvertValue(ClientContract):
 
 
 class ConvertDict(ClientContract):
-    props = ("C11", "C03", "C13")
+    props = ("C11", "C03", "C13", "C06")
     method = "_convert_dict_to_json_serializable"
 
     def setup(self, E):
@@ -364,7 +364,7 @@ class ExecuteDispatch(ClientContract):
 class ProcessVariables(ClientContract):
     """`_process_variables`: nothing to do for absent/empty variables; otherwise the files are separated from the
     converted variables (UNSET dropped, models dumped) and the triple of `_get_files_from_variables` is returned"""
-    props = ("C11", "C03")
+    props = ("C11", "C03", "C06")
     method = "_process_variables"
     use_at_calls = False
     frame_args = False
